@@ -678,12 +678,12 @@ class BinaryOp(Expr):
         if ltype == Type.SINGLE or rtype == Type.SINGLE:
             return Type.SINGLE
         if ltype == Type.LONG or rtype == Type.LONG:
-            if self.op == Operator.DIV:
+            if self.op in (Operator.DIV, Operator.EXP):
                 return Type.SINGLE
             else:
                 return Type.LONG
         if ltype == Type.INTEGER or rtype == Type.INTEGER:
-            if self.op == Operator.DIV:
+            if self.op in (Operator.DIV, Operator.EXP):
                 return Type.SINGLE
             else:
                 return Type.INTEGER
